@@ -218,23 +218,61 @@ func Container(root *resolve.FetchTreeNode, originals []int, equal func(absent, 
 	return out
 }
 
-// PathTwins reports whether two fetches of the tree work on the same response path (paths
-// compared without type conditions): such fetches see each other's merged items.
+// PathTwins reports whether two fetches of the tree can see each other's merged items: the
+// response path of one is equal to or a prefix of the other's (compared without type
+// conditions) and neither depends, directly or transitively, on the other. Which entities
+// the deeper one finds then depends on whether the other has already been merged.
 func PathTwins(root *resolve.FetchTreeNode) bool {
 	leaves, _, _ := Leaves(root)
-	seen := map[string]bool{}
-	for _, l := range leaves {
-		var sb strings.Builder
+	paths := map[int][]string{}
+	for id, l := range leaves {
+		var p []string
 		for _, pe := range l.Item.FetchPath {
-			sb.WriteString(strings.Join(pe.Path, ".") + "/")
+			p = append(p, strings.Join(pe.Path, "."))
 		}
-		if len(l.Item.FetchPath) == 0 {
-			continue
-		}
-		if seen[sb.String()] {
+		paths[id] = p
+	}
+	var reach func(from, to int, seen map[int]bool) bool
+	reach = func(from, to int, seen map[int]bool) bool {
+		if from == to {
 			return true
 		}
-		seen[sb.String()] = true
+		if seen[from] {
+			return false
+		}
+		seen[from] = true
+		if l := leaves[from]; l != nil {
+			for _, d := range l.Deps {
+				if reach(d, to, seen) {
+					return true
+				}
+			}
+		}
+		return false
+	}
+	isPrefix := func(a, b []string) bool {
+		if len(a) > len(b) {
+			return false
+		}
+		for i := range a {
+			if a[i] != b[i] {
+				return false
+			}
+		}
+		return true
+	}
+	for a, pa := range paths {
+		if len(pa) == 0 {
+			continue
+		}
+		for b, pb := range paths {
+			if a == b || len(pb) == 0 || !isPrefix(pa, pb) {
+				continue
+			}
+			if !reach(a, b, map[int]bool{}) && !reach(b, a, map[int]bool{}) {
+				return true
+			}
+		}
 	}
 	return false
 }
